@@ -415,9 +415,8 @@ fn c08_ts_add_days(a: i64) {
                     }
                 }
                 assert!(in_ts(v.usecs() as i128));
-                kani::cover!(k == 1);
-                kani::cover!(k == -1);
-                kani::cover!(v.usecs() == TS_MAX);
+                kani::cover!(k != 0);
+                kani::cover!(k == 0 && days != 0.0);
             }
             Err(e) => {
                 assert!(matches!(e, Error::DateOutOfRange));
